@@ -451,3 +451,70 @@ def c06(ctx, e):
         if r.outcome == "FAILED" and retriable:
             ctx.violation("wrong-classification", f"retriable checkpoint error {name} was reported FAILED", scen_of(e))
             return
+
+
+# ---- C17 ---------------------------------------------------------------------------------------------------
+def c17(ctx, e):
+    """per invocation: a log call is emitted iff no operation that was complete when the invocation began lies ahead of it"""
+    from harness.progspec import flatten
+    instrs = flatten(e.prog)
+    op_kinds = {"STEP", "WAIT", "CBCREATE", "INVOKE", "WFC", "CHILD_BEGIN"}
+    idx_of_id = {path_id(d["path"]): k for k, d in enumerate(instrs, 1) if d["kind"] in op_kinds}
+    log_idx = {d["pt"]: k for k, d in enumerate(instrs, 1) if d["kind"] == "LOG"}
+    parent_of = {k: d["parent"] for k, d in enumerate(instrs, 1)}
+    for r in e.invocations:
+        comp = {idx_of_id[o] for o, st in getattr(r, "ops_at_start", {}).items() if st in TERMINAL and o in idx_of_id}
+        small = r.split is not None and r.split[0] <= 1
+        evs = r.events
+        returned = False
+        for k, ev in enumerate(evs):
+            if ev["ev"] == "Deliver" and ev["kind"] == "value":
+                returned = True
+            if ev["ev"] == "CbCreated":
+                returned = True
+            if ev["ev"] != "LogCall":
+                continue
+            li = log_idx.get(ev["pt"])
+            emitted = k + 1 < len(evs) and evs[k + 1]["ev"] == "LogEmit" and evs[k + 1]["pt"] == ev["pt"]
+            if not emitted and r.outcome == "CRASHED" and not any(x.get("th") == ev.get("th") and x["ev"] != "Abort" for x in evs[k + 1:]):
+                continue      # the process was killed inside this very log call
+            if li is None:
+                # log inside a step function: emitted iff the step is being executed now, i.e. always expected
+                if not emitted and r.inv == 1:
+                    ctx.violation("log-missing-first-invocation", f"log call {ev['pt']} not emitted in the first invocation", scen_of(e))
+                    return
+                continue
+            expected = not any(c > li for c in comp)
+            if r.inv == 1 and not (e.invocations[0].ops_at_start):
+                expected = True
+            if emitted and evs[k + 1].get("extra", {}).get("executionArn") != e.backend.arn:
+                ctx.violation("log-extras", f"log record of {ev['pt']} lacks the execution ARN: {evs[k + 1].get('extra')}", scen_of(e))
+                return
+            if expected == emitted:
+                continue
+            done_now = {idx_of_id[o] for o in ev.get("done", []) if o in idx_of_id}
+            if emitted and not expected:
+                ctx.violation("log-first-page" if small else "log-duplicate",
+                              f"invocation {r.inv}: log call {ev['pt']} emitted although completed operations lie ahead "
+                              f"(first page split {r.split})", scen_of(e))
+                if not small:
+                    return
+                continue
+            # missing
+            def nested_done(i):
+                p = parent_of.get(i, 0)
+                return p != 0 and p in done_now
+            failed_ids = {idx_of_id[o] for o, rec in e.backend.ops.items() if o in idx_of_id and rec["Status"] in TERMINAL
+                          and rec["Status"] != "SUCCEEDED"}
+            if any(nested_done(i) for i in done_now):
+                sig = "log-silent-nested-completed"
+            elif done_now & failed_ids:
+                sig = "log-silent-after-failure"
+            elif not returned:
+                sig = "log-silent-until-first-return"
+            else:
+                sig = "log-missing"
+            ctx.violation(sig, f"invocation {r.inv}: log call {ev['pt']} suppressed although no operation completed before this "
+                               f"invocation lies ahead of it", scen_of(e))
+            if sig == "log-missing":
+                return
